@@ -14,48 +14,36 @@ def noBlankLineB (t : Text) : Bool := t.isEmpty || (splitNl t).all fun l => !bla
 /-- A line that carries a Paroxython hint marker (`#\s*paroxython\s*:` whatever the case). -/
 def isHintLine (l : Line) : Bool := isHint l
 
-/-- The tokens that the loop takes into account when it remembers the "previous token":
-all but the comments it drops. -/
-def seen (t : Token) : Bool := !(t.kind == .comment && !isHint t.str)
+/-- A line that BEGINS with the hint marker (a hint comment standing at column 0). -/
+def startsWithMarker (l : Line) : Bool := (markerRest? l).isSome
 
-/-- Kinds of the tokens seen so far, most recent first. -/
-def seenKindsRev (pre : List Token) : List Kind := ((pre.filter seen).map (·.kind)).reverse
+/-- NL and COMMENT tokens (blank lines, comment-only lines, trailing comments) do not separate a
+string from the statement start before it. -/
+def transparent (k : Kind) : Bool := k == .nl || k == .comment
 
 /-- Declarative reading of the loop's test `previous_token in (INDENT, DEDENT, NEWLINE)` before a
-token preceded by `pre`. With `r` the kinds of the tokens seen so far, most recent first: nothing
-was seen yet, or the last seen token is an INDENT, a DEDENT or a NEWLINE, or the last seen tokens are
-a run of NL (blank or comment-only lines) that comes right after a NEWLINE. -/
+token preceded by `pre`: going back from that token and ignoring the NL and COMMENT tokens, either
+the beginning of the file is reached or the first token met is an INDENT, a DEDENT or a NEWLINE. -/
 def AtStmtStart (pre : List Token) : Prop :=
-  let r := seenKindsRev pre
-  r = [] ∨ (∃ k r', r = k :: r' ∧ k.opensStmt = true) ∨
-    (∃ n r', r = List.replicate (n + 1) Kind.nl ++ Kind.newline :: r')
-
-/-- most recent first: a (possibly empty) run of NL closed by a NEWLINE -/
-def nlRunAfterNewline : List Kind → Bool
-  | .newline :: _ => true
-  | .nl :: r => nlRunAfterNewline r
-  | _ => false
+  let r := ((pre.map (·.kind)).reverse).dropWhile transparent
+  r = [] ∨ ∃ k r', r = k :: r' ∧ k.opensStmt = true
 
 def atStmtStartRev : List Kind → Bool
   | [] => true
-  | .nl :: r => nlRunAfterNewline r
-  | k :: _ => k.opensStmt
+  | k :: r => if transparent k then atStmtStartRev r else k.opensStmt
 
-def atStmtStartB (pre : List Token) : Bool := atStmtStartRev (seenKindsRev pre)
+def atStmtStartB (pre : List Token) : Bool := atStmtStartRev (pre.map (·.kind)).reverse
 
-/-- What the property calls a docstring-like string statement, at token level: the statement that
-starts with token `i` consists of string literals only, i.e. the STRING tokens from `i` on are
-followed by the NEWLINE that ends the logical line. -/
-def stringsThenNewline : List Token → Bool
-  | [] => false
-  | t :: ts =>
-    if t.kind = .string then stringsThenNewline ts
-    else if t.kind = .comment then stringsThenNewline ts
-    else t.kind = .newline
+/-- What the property calls a docstring-like string statement, at token level: token `i` is a STRING
+at a statement start and the very next token is the NEWLINE that ends the logical line (the
+statement consists of that string literal only). -/
+def DocstringLike (ts : List Token) (i : Nat) : Prop :=
+  ∃ t, ts[i]? = some t ∧ t.kind = .string ∧ AtStmtStart (ts.take i) ∧
+    (ts[i + 1]?).map (·.kind) = some Kind.newline
 
 def docstringLikeB (ts : List Token) (i : Nat) : Bool :=
   match ts.drop i with
-  | t :: rest => t.kind = .string && atStmtStartB (ts.take i) && stringsThenNewline rest
+  | t :: rest => t.kind = .string && atStmtStartB (ts.take i) && (nextKind rest == some .newline)
   | [] => false
 
 end Paroxy.Cleanup.Spec
